@@ -703,7 +703,14 @@ where
                         if !shrinking.get() {
                             st.evaluations += 1;
                         }
-                        match guard(|| check(&case, st)) {
+                        if crashdump::armed() {
+                            crashdump::set_current(&serde_json::to_vec(&json!({"property": env.property, "part": name, "reason": "the process died (abort / segfault) while executing this case", "case": serde_json::to_value(&case).unwrap_or(Value::Null)})).unwrap_or_default());
+                        }
+                        let verdict = guard(|| check(&case, st));
+                        if crashdump::armed() {
+                            crashdump::clear_current();
+                        }
+                        match verdict {
                             Ok(()) => Ok(()),
                             Err(reason) => {
                                 if env.is_known(&reason) {
@@ -885,9 +892,16 @@ pub fn replay_case<T: DeserializeOwned>(
     case: Value,
     check: impl FnOnce(&T, &mut Stats) -> Result<(), String>,
 ) -> Result<(), String> {
+    if crashdump::armed() {
+        crashdump::set_current(&serde_json::to_vec(&json!({"reason": "the process died (abort / segfault) while replaying this case", "case": case})).unwrap_or_default());
+    }
     let case: T = serde_json::from_value(case).map_err(|e| format!("bad replay case: {e}"))?;
     let mut st = Stats::new(0);
-    guard(|| check(&case, &mut st))
+    let r = guard(|| check(&case, &mut st));
+    if crashdump::armed() {
+        crashdump::clear_current();
+    }
+    r
 }
 
 /// A finite stream of generator-provided choices, interpreted procedurally (so that dependent
